@@ -86,6 +86,8 @@ def run(ctx):
     M.rule_F7d_measure_maps(ctx)
     M.rule_backfill_siblings(ctx)
     M.rule_empty_2d(ctx)
+    from ..rules import extra as X
+    X.rule_number_none_test(ctx)
     M.rule_interp_kwargs(ctx)
     M.rule_F4b(ctx)
     rule_codes(ctx)
